@@ -440,7 +440,9 @@ def gen_outline(rng, lib, sid, opts):
                          "tags": gen_tags(rng, opts["tag_pool"], opts["p_tag"] * 0.8, 2),
                          "headings": ecols, "rows": rows,
                          "kwd": rng.choice(["Examples", "Examples", "Scenarios"])})
-    if not opts.get("allow_empty_outline") and not any(ex["rows"] for ex in examples):
+    if opts.get("allow_no_examples") and rng.random() < 0.06:
+        examples = []           # an outline without any Examples section
+    elif not opts.get("allow_empty_outline") and not any(ex["rows"] for ex in examples):
         examples[0]["rows"] = [["v%d" % rng.randint(0, 9) for _ in examples[0]["headings"]]]
     tags = gen_tags(rng, opts["tag_pool"], opts["p_tag"])
     if rng.random() < 0.2:
@@ -956,6 +958,8 @@ def gen_actions(rng, world, dims, where):
             act["raises"] = rng.choice(["Exception", "AssertionError", "Exception", "AssertionError", "StopIteration"])
         if kind == "fixture" and rng.random() < 0.1:
             act["setup_raises"] = True
+        if kind in ("plain", "args") and rng.random() < 0.1:
+            act["scoped"] = True        # the cleanup itself opens and closes a context layer
         acts.append(act)
     return acts
 
